@@ -667,6 +667,15 @@ fn main() {
                 }
                 continue;
             }
+            if let Some(rest) = dir.strip_prefix("after ") {
+                // ghost text behind the anchored statement (same mechanism as `before`)
+                if let Some((d, _)) = cur_fn.as_mut() {
+                    let pfx: String = rest.chars().filter(|c| !c.is_whitespace()).collect();
+                    d.before.push((format!("AFTER:{}", pfx), vec![]));
+                    sec = Sec::Before(d.before.len() - 1);
+                }
+                continue;
+            }
             if dir == "tail" {
                 sec = Sec::Tail;
                 continue;
